@@ -51,7 +51,7 @@ def fingerprint(o, depth=0):
         return ["bytes", o.hex()]
     if isinstance(o, enum.Enum):
         return ["enum", type(o).__name__, o.value]
-    if isinstance(o, pr.VObj):
+    if isinstance(o, (pr.VObj, pr.IdObj)):
         return ["VObj", o.name]
     if isinstance(o, slice):
         return ["slice", o.start, o.stop, o.step]
@@ -203,7 +203,28 @@ def probe_strategy(tier):
     def one(draw):
         kind = draw(st.sampled_from(["place", "place", "pipeline", "route",
                                      "route", "minimise", "bitfield",
-                                     "controller"]))
+                                     "controller", "place-many",
+                                     "place-many"]))
+        if kind == "place-many":
+            # 16-40 vertices with identity hashes, a seeded placer and no
+            # constraints: the result exposes any dependence on set / address
+            # order (the placers document determinism for ordered inputs)
+            n = draw(st.integers(16, 40))
+            w = draw(st.integers(4, 7))
+            names = ["v%d" % i for i in range(n)]
+            placer = draw(st.sampled_from(["sa-python", "sa-c", "rand"]))
+            return {"kind": "place", "case": {
+                "machine": {"w": w, "h": w, "mesh": draw(st.booleans()),
+                            "resources": {"Cores": 4}, "exceptions": [],
+                            "dead_chips": [], "dead_links": []},
+                "vertices": [{"name": v, "needs": {"Cores": 1}}
+                             for v in names],
+                "nets": draw(gp.nets_strategy(names, max_nets=6, max_fan=5,
+                                              min_nets=1)),
+                "constraints": [], "vkind": "idobj",
+                "seed": draw(st.integers(0, 10 ** 6)), "placer": placer,
+                "options": {"effort": draw(st.sampled_from([0.0, 0.05]))}
+                if placer != "rand" else {}}}
         if kind == "route":
             # broadcast nets on a fault-free machine: trees with dozens of
             # nodes, so that the router's memoised search rings are used
@@ -229,8 +250,13 @@ def probe_strategy(tier):
             placer = draw(st.sampled_from(["sa-c", "sa-python", "hilbert",
                                            "rcm", "breadth-first",
                                            "sequential", "rand"]))
-            return {"kind": kind,
-                    "case": draw(c02.make_strategy(placer, False)("quick"))}
+            case = draw(c02.make_strategy(placer, False)("quick"))
+            if placer in ("sa-c", "sa-python", "rand") and \
+                    draw(st.booleans()):
+                # seeded placers document deterministic results for ordered
+                # inputs: also with vertices hashed by identity (address)
+                case["vkind"] = "idobj"
+            return {"kind": kind, "case": case}
         if kind == "pipeline":
             return {"kind": kind,
                     "case": draw(c01.strat_pipeline("quick", "by-hand"))}
